@@ -23,7 +23,7 @@ LEVEL_TEXT = ('Proof: Coq round-trip theorems, unbounded in the number of entrie
               'entry, because the implementation drops it (open known finding, refutation witness proved). '
               'Tie: model/implementation differential run + direct oracle on the implementation.')
 LEVEL_NOTE = ('Trusted: Coq kernel, hand-written models + spec encoders, translator for the palette-name table, extraction, '
-              'harness, Python codecs. No axioms.')
+              'harness, Python codecs. No axioms. Enc tie: enc_key / enc_cas / enc_lctx / enc_lnam / enc_vwlb of the theorems are evaluated by coqc on the run\'s tables and compared with the harness encoders.')
 TECHNIQUE = 'Coq round-trip proofs by induction over the entry list + layout lemma; model/implementation correspondence'
 
 PAL_REF = {-1: 'systemMac', -102: 'systemWin', -2: 'rainbow', -3: 'grayscale', -4: 'pastels', -5: 'vivid',
